@@ -57,20 +57,34 @@ namespace
   template<typename T_> using ElD1 = Space::Discontinuous::Element<T_, Space::Discontinuous::Variant::StdPolyP<1>>;
   template<typename T_> using ElB2 = Space::Bernstein2::Element<T_>;
 
-  struct Dense
+  /// read-only view of a CSR matrix (own copy of the arrays; duplicate column entries of a row are summed)
+  struct Csr
   {
     Index m = 0, n = 0;
-    std::vector<double> v;
-    double operator()(Index i, Index j) const { return v[size_t(i) * size_t(n) + size_t(j)]; }
+    std::vector<Index> rp, ci;
+    std::vector<double> va;
+    explicit Csr(const MatrixType& a) : m(a.rows()), n(a.columns()), rp(size_t(a.rows()) + 1, Index(0))
+    {
+      if(a.used_elements() == 0) return;
+      rp.assign(a.row_ptr(), a.row_ptr() + m + 1);
+      ci.assign(a.col_ind(), a.col_ind() + a.used_elements());
+      va.assign(a.val(), a.val() + a.used_elements());
+    }
+    double operator()(Index i, Index j) const { double s = 0.0; for(Index k = rp[i]; k < rp[i + 1]; ++k) if(ci[k] == j) s += va[k]; return s; }
+    bool stored(Index i, Index j) const { for(Index k = rp[i]; k < rp[i + 1]; ++k) if(ci[k] == j) return true; return false; }
+    size_t nnz() const { return va.size(); }
+    /// y = A*x and the sum of absolute values of the terms
+    void apply(std::vector<double>& y, std::vector<double>& ya, const std::vector<double>& x) const
+    {
+      y.assign(size_t(m), 0.0); ya.assign(size_t(m), 0.0);
+      for(Index i = 0; i < m; ++i) for(Index k = rp[i]; k < rp[i + 1]; ++k) { const double t = va[k] * x[size_t(ci[k])]; y[size_t(i)] += t; ya[size_t(i)] += std::fabs(t); }
+    }
+    void apply_t(std::vector<double>& y, std::vector<double>& ya, const std::vector<double>& x) const
+    {
+      y.assign(size_t(n), 0.0); ya.assign(size_t(n), 0.0);
+      for(Index i = 0; i < m; ++i) for(Index k = rp[i]; k < rp[i + 1]; ++k) { const double t = va[k] * x[size_t(i)]; y[size_t(ci[k])] += t; ya[size_t(ci[k])] += std::fabs(t); }
+    }
   };
-  Dense to_dense(const MatrixType& a)
-  {
-    Dense d; d.m = a.rows(); d.n = a.columns(); d.v.assign(size_t(d.m) * size_t(d.n), 0.0);
-    if(a.used_elements() == 0) return d;
-    const Index* rp = a.row_ptr(); const Index* ci = a.col_ind(); const double* va = a.val();
-    for(Index i = 0; i < d.m; ++i) for(Index k = rp[i]; k < rp[i + 1]; ++k) d.v[size_t(i) * size_t(d.n) + size_t(ci[k])] += va[k];
-    return d;
-  }
 
   // ------------------------------------------------------------------------------------------ reference cell helpers
   template<typename Shape_> struct RefCell;
@@ -334,7 +348,7 @@ namespace
       MatrixType rest = prol.transpose();
       MatrixType rest_s = prol_s.transpose();
 
-      Dense P = to_dense(prol), Pb = to_dense(prol_b), Ps = to_dense(prol_s), T = to_dense(trunc), R = to_dense(rest), Rs = to_dense(rest_s);
+      const Csr P(prol), Pb(prol_b), Ps(prol_s), T(trunc), R(rest), Rs(rest_s);
       c.check(P.m == nf && P.n == nc && T.m == nc && T.n == nf && R.m == nc && R.n == nf, "matrix dimensions; " + key, "prolongation/truncation/restriction dimensions wrong");
 
       // ---- (a) exactness on the coarse space, geometrically
@@ -349,12 +363,24 @@ namespace
       uint64_t npts = 0;
       bool parents_ok = true;
       std::vector<int> children(size_t(ncell_c), 0);
-      std::vector<char> colmask(size_t(nc), 0);
+      std::vector<int> colpos(size_t(nc), -1);
+      // coarse cell barycentres and radii for a cheap pre-selection of parent candidates
+      std::vector<ImgPoint> cbary(size_t(ncell_c)); std::vector<double> crad(size_t(ncell_c), 0.0);
+      {
+        const std::vector<DomPoint> corners = RefCell<ShapeType>::template lattice<DomPoint>(1);
+        for(Index cc = 0; cc < ncell_c; ++cc)
+        {
+          te_c.prepare(cc);
+          DomPoint xb; for(int k = 0; k < dim; ++k) xb[k] = RefCell<ShapeType>::center();
+          te_c(td_c, xb); cbary[size_t(cc)] = td_c.img_point;
+          for(const DomPoint& q : corners) { te_c(td_c, q); double r2 = 0.0; for(int k = 0; k < dim; ++k) { const double d = td_c.img_point[k] - cbary[size_t(cc)][k]; r2 += d * d; } crad[size_t(cc)] = std::max(crad[size_t(cc)], std::sqrt(r2)); }
+          te_c.finish();
+        }
+      }
       for(Index fc = 0; fc < ncell_f; ++fc)
       {
         te_f.prepare(fc); se_f.prepare(te_f); dm_f.prepare(fc);
         const int nlf = se_f.get_num_local_dofs();
-        // barycentre
         DomPoint xb; for(int k = 0; k < dim; ++k) xb[k] = RefCell<ShapeType>::center();
         te_f(td_f, xb);
         ImgPoint bary = td_f.img_point;
@@ -362,6 +388,8 @@ namespace
         Index parent = ~Index(0); int nparents = 0;
         for(Index cc = 0; cc < ncell_c; ++cc)
         {
+          double d2 = 0.0; for(int k = 0; k < dim; ++k) { const double d = bary[k] - cbary[size_t(cc)][k]; d2 += d * d; }
+          if(std::sqrt(d2) > 1.5 * crad[size_t(cc)] + 1e-12) continue;
           te_c.prepare(cc);
           DomPoint xi;
           double res = invert(te_c, td_c, bary, xi);
@@ -372,10 +400,27 @@ namespace
         ++children[size_t(parent)];
         te_c.prepare(parent); se_c.prepare(te_c); dm_c.prepare(parent);
         const int nlc = se_c.get_num_local_dofs();
-        // columns to look at: everything that is non-zero in the rows of this cell, plus the parent's dofs
+        // columns to look at: everything stored in the rows of this cell (all three matrices), plus the parent's dofs
         std::vector<Index> cols;
-        for(int i = 0; i < nlf; ++i) { const Index gi = dm_f.get_index(i); for(Index j = 0; j < nc; ++j) if((P(gi, j) != 0.0 || Pb(gi, j) != 0.0 || Ps(gi, j) != 0.0) && !colmask[size_t(j)]) { colmask[size_t(j)] = 1; cols.push_back(j); } }
-        for(int j = 0; j < nlc; ++j) { const Index gj = dm_c.get_index(j); if(!colmask[size_t(gj)]) { colmask[size_t(gj)] = 1; cols.push_back(gj); } }
+        auto add_col = [&](Index J) { if(colpos[size_t(J)] < 0) { colpos[size_t(J)] = int(cols.size()); cols.push_back(J); } };
+        for(int i = 0; i < nlf; ++i)
+        {
+          const Index gi = dm_f.get_index(i);
+          for(Index k = P.rp[gi]; k < P.rp[gi + 1]; ++k) add_col(P.ci[k]);
+          for(Index k = Pb.rp[gi]; k < Pb.rp[gi + 1]; ++k) add_col(Pb.ci[k]);
+          for(Index k = Ps.rp[gi]; k < Ps.rp[gi + 1]; ++k) add_col(Ps.ci[k]);
+        }
+        for(int j = 0; j < nlc; ++j) add_col(dm_c.get_index(j));
+        // local blocks
+        const size_t ncol = cols.size();
+        std::vector<double> B(size_t(nlf) * ncol, 0.0), Bb(B), Bs(B);
+        for(int i = 0; i < nlf; ++i)
+        {
+          const Index gi = dm_f.get_index(i);
+          for(Index k = P.rp[gi]; k < P.rp[gi + 1]; ++k) B[size_t(i) * ncol + size_t(colpos[size_t(P.ci[k])])] += P.va[k];
+          for(Index k = Pb.rp[gi]; k < Pb.rp[gi + 1]; ++k) Bb[size_t(i) * ncol + size_t(colpos[size_t(Pb.ci[k])])] += Pb.va[k];
+          for(Index k = Ps.rp[gi]; k < Ps.rp[gi + 1]; ++k) Bs[size_t(i) * ncol + size_t(colpos[size_t(Ps.ci[k])])] += Ps.va[k];
+        }
         for(const DomPoint& p : lat)
         {
           te_f(td_f, p); se_f(sd_f, td_f);
@@ -384,10 +429,11 @@ namespace
           if(!(res < 1e-10)) { parents_ok = false; continue; }
           te_c(td_c, xi); se_c(sd_c, td_c);
           ++npts;
-          for(Index J : cols)
+          for(size_t q = 0; q < ncol; ++q)
           {
+            const Index J = cols[q];
             double lhs = 0.0, lhs_b = 0.0, lhs_s = 0.0, rhs = 0.0;
-            for(int i = 0; i < nlf; ++i) { const Index gi = dm_f.get_index(i); const double ph = sd_f.phi[i].value; lhs += P(gi, J) * ph; lhs_b += Pb(gi, J) * ph; lhs_s += Ps(gi, J) * ph; }
+            for(int i = 0; i < nlf; ++i) { const double ph = sd_f.phi[i].value; lhs += B[size_t(i) * ncol + q] * ph; lhs_b += Bb[size_t(i) * ncol + q] * ph; lhs_s += Bs[size_t(i) * ncol + q] * ph; }
             for(int j = 0; j < nlc; ++j) if(dm_c.get_index(j) == J) rhs += sd_c.phi[j].value;
             const double e = std::fabs(lhs - rhs);
             if(e > worst) { worst = e; worst_cell = fc; worst_col = J; }
@@ -395,7 +441,7 @@ namespace
             worst_s = std::max(worst_s, std::fabs(lhs_s - rhs));
           }
         }
-        for(Index J : cols) colmask[size_t(J)] = 0;
+        for(Index J : cols) colpos[size_t(J)] = -1;
         dm_c.finish(); se_c.finish(); te_c.finish();
         dm_f.finish(); se_f.finish(); te_f.finish();
       }
@@ -410,8 +456,18 @@ namespace
       {
         // shrink(1e-3*max) is a documented lossy option: it may drop genuine small entries (tensor-product cubic elements in 3D
         // have entries (1/16)^3); exactness is demanded only where it dropped nothing but assembly noise
-        double dropped = 0.0;
-        for(size_t k = 0; k < P.v.size(); ++k) if(Ps.v[k] == 0.0) dropped = std::max(dropped, std::fabs(P.v[k]));
+        double mx = 0.0; for(double x : P.va) mx = std::max(mx, std::fabs(x));
+        double dropped = 0.0; bool shr = true;
+        for(Index i = 0; i < nf; ++i) for(Index k = P.rp[i]; k < P.rp[i + 1]; ++k)
+        {
+          const double v = P.va[k], vs = Ps(i, P.ci[k]);
+          const bool big = std::fabs(v) >= 1e-3 * mx;
+          if(big && !(vs == v)) shr = false;
+          if(!big && vs != 0.0 && !(vs == v)) shr = false;
+          if(vs == 0.0) dropped = std::max(dropped, std::fabs(v));
+        }
+        if(Ps.nnz() > P.nnz()) shr = false;
+        c.check(shr, "shrink changed an entry above its threshold; " + key, "asm_transfer step sequence: entry >= 1e-3*max lost or altered");
         if(dropped <= 1e-12)
           c.check(worst_s <= 2e-11, "prolongation not exact on the coarse space (asm_transfer step sequence with shrink); " + key, [&]{ char b[200]; snprintf(b, sizeof b, "max error %.3e", worst_s); return std::string(b); });
         else
@@ -423,50 +479,65 @@ namespace
       c.count("lattice_points", npts);
       c.count("fine_cells", ncell_f);
 
-      // ---- (b) truncation is a left inverse: T*P = I
+      // ---- (b) truncation is a left inverse: T*P = I (sparse row products)
       {
         double w = 0.0; Index wi = 0, wj = 0;
-        for(Index i = 0; i < nc; ++i) for(Index j = 0; j < nc; ++j)
+        std::vector<double> acc(size_t(nc), 0.0);
+        std::vector<Index> touched;
+        for(Index i = 0; i < nc; ++i)
         {
-          double s = 0.0;
-          for(Index k = 0; k < nf; ++k) { const double t = T(i, k); if(t != 0.0) s += t * P(k, j); }
-          const double e = std::fabs(s - (i == j ? 1.0 : 0.0));
-          if(e > w) { w = e; wi = i; wj = j; }
+          touched.clear();
+          for(Index k = T.rp[i]; k < T.rp[i + 1]; ++k)
+          {
+            const Index r = T.ci[k]; const double t = T.va[k];
+            for(Index q = P.rp[r]; q < P.rp[r + 1]; ++q) { if(acc[size_t(P.ci[q])] == 0.0) touched.push_back(P.ci[q]); acc[size_t(P.ci[q])] += t * P.va[q]; }
+          }
+          bool diag_seen = false;
+          for(Index j : touched) { if(j == i) diag_seen = true; const double e = std::fabs(acc[size_t(j)] - (i == j ? 1.0 : 0.0)); if(e > w) { w = e; wi = i; wj = j; } }
+          if(!diag_seen) { const double e = std::fabs(acc[size_t(i)] - 1.0); if(e > w) { w = e; wi = i; wj = i; } }
+          for(Index j : touched) acc[size_t(j)] = 0.0;
+          acc[size_t(i)] = 0.0;
         }
         c.check(w <= 2e-10, "truncation is not a left inverse of prolongation; " + key, [&]{ char b[160]; snprintf(b, sizeof b, "max |(T*P - I)_ij| = %.3e at (%u,%u)", w, unsigned(wi), unsigned(wj)); return std::string(b); });
       }
 
       // ---- (c) restriction = transpose, entrywise and bitwise
       {
-        bool ok = (rest.used_elements() == prol.used_elements()) && (rest_s.used_elements() == prol_s.used_elements());
-        for(Index i = 0; i < nf && ok; ++i) for(Index j = 0; j < nc; ++j) if(!(R(j, i) == P(i, j)) || !(Rs(j, i) == Ps(i, j))) { ok = false; break; }
+        bool ok = (R.nnz() == P.nnz()) && (Rs.nnz() == Ps.nnz());
+        for(Index i = 0; i < nf && ok; ++i)
+        {
+          for(Index k = P.rp[i]; k < P.rp[i + 1]; ++k) if(!R.stored(P.ci[k], i) || !(R(P.ci[k], i) == P.va[k])) { ok = false; break; }
+          for(Index k = Ps.rp[i]; k < Ps.rp[i + 1] && ok; ++k) if(!Rs.stored(Ps.ci[k], i) || !(Rs(Ps.ci[k], i) == Ps.va[k])) { ok = false; break; }
+        }
         c.check(ok, "restriction is not the transpose of the prolongation; " + key, "mat_rest differs from mat_prol^T (entry or number of stored entries)");
-        // shrink must have removed only entries below its threshold
-        double mx = 0.0; for(double x : P.v) mx = std::max(mx, std::fabs(x));
-        bool shr = true;
-        for(size_t k = 0; k < P.v.size(); ++k) { const bool big = std::fabs(P.v[k]) >= 1e-3 * mx; if(big && !(Ps.v[k] == P.v[k])) shr = false; if(!big && Ps.v[k] != 0.0 && !(Ps.v[k] == P.v[k])) shr = false; }
-        c.check(shr, "shrink changed an entry above its threshold; " + key, "asm_transfer step sequence: entry >= 1e-3*max lost or altered");
       }
 
       // ---- (d) matrix-free prolongation = matrix, (e) LAFEM::Transfer = the matrices
       {
         VectorType vc(nc), vf(nf), vf2(nf), vc2(nc), vc3(nc), dual(nf);
-        for(Index j = 0; j < nc; ++j) vc(j, double(int((j * 5u + 3u) % 11u) - 5) / 4.0);
-        for(Index i = 0; i < nf; ++i) dual(i, double(int((i * 7u + 1u) % 13u) - 6) / 8.0);
+        std::vector<double> xc(size_t(nc)), xd(size_t(nf));
+        for(Index j = 0; j < nc; ++j) { xc[size_t(j)] = double(int((j * 5u + 3u) % 11u) - 5) / 4.0; vc(j, xc[size_t(j)]); }
+        for(Index i = 0; i < nf; ++i) { xd[size_t(i)] = double(int((i * 7u + 1u) % 13u) - 6) / 8.0; dual(i, xd[size_t(i)]); }
+        std::vector<double> y, ya;
+        P.apply(y, ya, xc);
         vf.format();
         Assembly::GridTransfer::prolongate_vector_direct(vf, vc, space_f, space_c, cub_a);
         double w = 0.0; Index wi = 0;
-        for(Index i = 0; i < nf; ++i) { double s = 0.0, sa = 0.0; for(Index j = 0; j < nc; ++j) { s += P(i, j) * vc(j); sa += std::fabs(P(i, j) * vc(j)); } const double e = std::fabs(vf(i) - s) / std::max(1.0, sa); if(e > w) { w = e; wi = i; } }
+        for(Index i = 0; i < nf; ++i) { const double e = std::fabs(vf(i) - y[size_t(i)]) / std::max(1.0, ya[size_t(i)]); if(e > w) { w = e; wi = i; } }
         c.check(w <= 1e-12, "matrix-free prolongate_vector differs from the assembled matrix; " + key, [&]{ char b[160]; snprintf(b, sizeof b, "max relative difference %.3e at fine dof %u", w, unsigned(wi)); return std::string(b); });
 
         LAFEM::Transfer<MatrixType> tr(prol.clone(), rest.clone(), trunc.clone());
         c.check(!tr.is_ghost(), "LAFEM::Transfer::is_ghost; " + key, "local transfer claims to be a ghost operator");
         tr.prol(vf2, vc); tr.rest(dual, vc2); tr.trunc(vf2, vc3);
-        double wp = 0.0, wr = 0.0, wt = 0.0;
-        for(Index i = 0; i < nf; ++i) { double s = 0.0, sa = 0.0; for(Index j = 0; j < nc; ++j) { s += P(i, j) * vc(j); sa += std::fabs(P(i, j) * vc(j)); } wp = std::max(wp, std::fabs(vf2(i) - s) / std::max(1e-300, sa + 1e-300)); }
-        for(Index j = 0; j < nc; ++j) { double s = 0.0, sa = 0.0, t = 0.0, ta = 0.0; for(Index i = 0; i < nf; ++i) { s += P(i, j) * dual(i); sa += std::fabs(P(i, j) * dual(i)); t += T(j, i) * vf2(i); ta += std::fabs(T(j, i) * vf2(i)); }
-          wr = std::max(wr, std::fabs(vc2(j) - s) / (sa + 1e-300)); wt = std::max(wt, std::fabs(vc3(j) - t) / (ta + 1e-300)); }
         const double tol = 64.0 * 2.3e-16;
+        double wp = 0.0, wr = 0.0, wt = 0.0;
+        for(Index i = 0; i < nf; ++i) wp = std::max(wp, std::fabs(vf2(i) - y[size_t(i)]) / (ya[size_t(i)] + 1e-300));
+        std::vector<double> z, za;
+        P.apply_t(z, za, xd);
+        for(Index j = 0; j < nc; ++j) wr = std::max(wr, std::fabs(vc2(j) - z[size_t(j)]) / (za[size_t(j)] + 1e-300));
+        std::vector<double> xf(size_t(nf)); for(Index i = 0; i < nf; ++i) xf[size_t(i)] = vf2(i);
+        T.apply(z, za, xf);
+        for(Index j = 0; j < nc; ++j) wt = std::max(wt, std::fabs(vc3(j) - z[size_t(j)]) / (za[size_t(j)] + 1e-300));
         c.check(wp <= tol, "LAFEM::Transfer::prol differs from P*v; " + key, [&]{ char b[100]; snprintf(b, sizeof b, "relative difference %.3e", wp); return std::string(b); });
         c.check(wr <= tol, "LAFEM::Transfer::rest differs from P^T*v; " + key, [&]{ char b[100]; snprintf(b, sizeof b, "relative difference %.3e", wr); return std::string(b); });
         c.check(wt <= tol, "LAFEM::Transfer::trunc differs from T*v; " + key, [&]{ char b[100]; snprintf(b, sizeof b, "relative difference %.3e", wt); return std::string(b); });
@@ -474,7 +545,7 @@ namespace
         double wtp = 0.0; for(Index j = 0; j < nc; ++j) wtp = std::max(wtp, std::fabs(vc3(j) - vc(j)));
         c.check(wtp <= 1e-10, "LAFEM::Transfer trunc(prol(v)) != v; " + key, [&]{ char b[100]; snprintf(b, sizeof b, "max difference %.3e", wtp); return std::string(b); });
       }
-      c.count("matrix_entries_checked", uint64_t(nf) * uint64_t(nc));
+      c.count("matrix_entries_checked", uint64_t(P.nnz() + Pb.nnz() + Ps.nnz() + T.nnz() + R.nnz()));
       c.outcome(worst < 1e-14 ? "err<1e-14" : worst < 1e-13 ? "err<1e-13" : worst < 1e-12 ? "err<1e-12" : worst <= 2e-11 ? "err<2e-11" : "inexact");
     }
   };
